@@ -46,7 +46,7 @@ def run_tlc(spec_dir, module, cfg=None, env=None, workers=1, timeout=3600, extra
     wd = keep or scratch("tlc-")
     try:
         _stage(spec_dir, wd)
-        cmd = ["java", "-XX:+UseParallelGC"]
+        cmd = ["java", "-XX:+UseParallelGC", "-Xss64m"]
         if heap:
             cmd.append("-Xmx" + heap)
         cmd += ["-cp", JAR, "tlc2.TLC", "-workers", str(workers), "-metadir", os.path.join(wd, "states"),
@@ -148,7 +148,8 @@ def validate_batch(spec_dir, module, traces, cfg=None, chunk=None, procs=12, tim
         r = run_tlc(spec_dir, module, cfg or module + ".cfg", env=e, workers=1, timeout=timeout, heap=heap)
         vs = _parse_verdicts(r["out"])
         if r["rc"] != 0 or "No error has been found" not in r["out"]:
-            raise MachineryError(f"TLC failed on trace batch {k} of {module}:\n{r['out'][-3000:]}")
+            i = r["out"].find("Error")
+            raise MachineryError(f"TLC failed on trace batch {k} of {module}:\n{r['out'][max(i, 0):max(i, 0) + 2500]}")
         by = {}
         for v in vs:
             if v["tid"] in by:
